@@ -91,10 +91,13 @@ class _Clock:
     def __init__(self, real):
         self._real = real
         self.sleeps = 0
+        self.raise_at = None        # (number of the sleep, exception class): Ctrl-C / SystemExit inside sleep
 
     def sleep(self, _interval):
         S.ypoint(('sleep',))
         self.sleeps += 1
+        if self.raise_at is not None and self.raise_at[0] == self.sleeps:
+            raise self.raise_at[1]()
 
     @staticmethod
     def time():
@@ -474,6 +477,9 @@ class RunB(RunBase):
         self.wspbus = wspbus
         saved = (wspbus.time, wspbus.os, wspbus.atexit, wspbus.threading)
         wspbus.time = _Clock(saved[0])
+        if case.get('intr'):
+            # the main thread's n-th sleep inside wait() is interrupted: 'k' KeyboardInterrupt, 's' SystemExit
+            wspbus.time.raise_at = (int(case['intr'][1:]), KeyboardInterrupt if case['intr'][0] == 'k' else SystemExit)
         wspbus.os = _OsShim(os)
         wspbus.atexit = _FakeAtexit
         wspbus.threading = _ThreadingShim(saved[3], self)
@@ -525,8 +531,10 @@ class RunB(RunBase):
             self.left_by = how
 
     def _m(self):
-        self.bus.block()
-        self.left_loop('return')
+        try:
+            self.bus.block()
+        finally:
+            self.left_loop('return')
 
     def _x(self):
         for call in self.case['calls']:
@@ -577,6 +585,8 @@ class RunB(RunBase):
 def oracle_B(case, run):
     bad = []
     m, x = run.s.recs['m'], run.s.recs['x']
+    if case.get('intr'):
+        return oracle_B_interrupted(case, run)
     for r, who in ((m, 'block()'), (x, 'second thread')):
         if r.exc is not None:
             bad.append(('%s raised %r' % (who, r.exc), 'B:exception:%s' % type(r.exc).__name__))
@@ -604,6 +614,31 @@ def oracle_B(case, run):
         elif want and run.execv_done != 'm':
             bad.append(('execv performed by thread %s, not by the main thread' % run.execv_done,
                         'B:execv_wrong_thread'))
+    return bad
+
+
+def oracle_B_interrupted(case, run):
+    """Ctrl-C / SystemExit inside the polling loop: block() itself drives the bus to EXITING and returns
+    (SystemExit is passed on after that)."""
+    bad = []
+    m, x = run.s.recs['m'], run.s.recs['x']
+    fired = run.wspbus.time.sleeps >= run.wspbus.time.raise_at[0]
+    if x.exc is not None:
+        bad.append(('second thread raised %r' % (x.exc,), 'B:exception:%s' % type(x.exc).__name__))
+    if not fired:
+        return bad
+    kind = case['intr'][0]
+    if isinstance(m.exc, _ProcExit) and 'start' in case['calls']:
+        return bad      # exit() found the bus STARTING (a concurrent start()): os._exit is the documented reaction
+    if not m.done:
+        bad.append(('the main thread was interrupted inside wait() but block() has not returned', 'B:block_does_not_return'))
+    elif kind == 'k' and m.exc is not None:
+        bad.append(('block() raised %r after a KeyboardInterrupt' % (m.exc,), 'B:exception:%s' % type(m.exc).__name__))
+    elif kind == 's' and not isinstance(m.exc, SystemExit):
+        bad.append(('SystemExit inside wait() was not passed on by block() (%r)' % (m.exc,), 'B:systemexit_swallowed'))
+    elif run.state_when_left != 'EXITING':
+        bad.append(('block() was interrupted and went on to its join loop / returned (%s) with the bus %s, not EXITING'
+                    % (run.left_by, run.state_when_left), 'B:block_returns_without_EXITING'))
     return bad
 
 
@@ -809,7 +844,8 @@ def scenario_key(case):
                                       'ar ' if case.get('ar') else '', 'op ' if case.get('op') else '',
                                       'boom=%s' % (case.get('boom'),) if case.get('boom') else '')
     if k == 'B':
-        return 'B %s %s%s' % (','.join(case['calls']) or '-', case.get('foreign', ''), ' op' if case.get('op') else '')
+        return 'B %s %s%s%s' % (','.join(case['calls']) or '-', case.get('foreign', ''), ' op' if case.get('op') else '',
+                                ' intr=' + case['intr'] if case.get('intr') else '')
     return 'T %d %s%s' % (case['nstops'], '/'.join(case['scripts']) or '-', ' op' if case.get('op') else '')
 
 
@@ -827,6 +863,8 @@ def comparable(case):
         return False            # bytecode-granular runs: oracle only
     if case['k'] == 'M' and case.get('boom'):
         return MODEL_HAS.get('boom', False)
+    if case['k'] == 'B' and case.get('intr'):
+        return False            # Ctrl-C / SystemExit inside wait(): oracle only
     if case['k'] == 'B' and case.get('foreign'):
         return MODEL_HAS.get('foreign', False)
     if case['k'] == 'T':
@@ -1158,6 +1196,11 @@ def all_cases(ctx):
                         for late in ((4, 7, 12) if quick else range(2, 14, 2)):
                             cases.append({'k': 'B', 'calls': calls, 'foreign': foreign,
                                           'sched': pre + ['m'] * a + ['x'] * b + ['m'] * late + mid + ['m'] * 8})
+    # Ctrl-C / SystemExit inside the polling loop of wait() (oracle only)
+    for calls in ([], ['stop'], ['stop', 'start'], ['graceful']):
+        for intr in ('k1', 'k2', 's1', 's3'):
+            for b in (0, 2, 5, 9):
+                cases.append({'k': 'B', 'calls': calls, 'intr': intr, 'sched': ['m'] * 2 + ['x'] * b + ['m'] * 12})
     # T
     for scripts in T_SCRIPTS:
         if modes()['T'] == 'asIs' and sum(s.count('a') for s in scripts) > 5:
